@@ -565,15 +565,16 @@ def _nm(r):
     return 'n<m' if r['n'] < r['m'] else ('n=m' if r['n'] == r['m'] else 'n>m')
 
 
-def run(ctx):
-    pygam = common.import_pygam()
-    st_cf = 'stats.closed-form'
-    st_sv = 'stats.solve'
-    st_ev = 'eval.outputs'
-    st_wd = 'wald.pvalues'
-    st_ac = 'accuracy.literals'
-    st_con = 'lapack.contracts'
-    st_or = 'stats.oracle'
+st_cf = 'stats.closed-form'
+st_sv = 'stats.solve'
+st_ev = 'eval.outputs'
+st_wd = 'wald.pvalues'
+st_ac = 'accuracy.literals'
+st_con = 'lapack.contracts'
+st_or = 'stats.oracle'
+
+
+def _declare(ctx):
     ctx.stream(st_cf, 'scale, AIC, AICc, GCV, UBRE, pseudo_r2 (3), deviance of statistics_ == Stats.scalars(y, mu, w, edof, loglik, null loglik) at Float, 1e-8')
     ctx.stream(st_sv, 'edof, cov (entrywise rel. to max), se == Stats.edofOf/covOf/seOf on the solution of (WB\'WB+A)Bm = WB\' at the exported (B, A, y, w, coef_, mask); thr = max(1e-6, 10 eps cond)')
     ctx.stream(st_ev, 'deviance_residuals (scaled / unscaled), score, accuracy, loglikelihood (kernel difference to the null mean) on held-out and training data == model')
@@ -585,11 +586,22 @@ def run(ctx):
                          '(none / positive / integer / with zeros) x lam mode x known or estimated scale; distinct = distinct case dicts; '
                          'non-trivial = fit with a non-default ingredient (weights, n <= m, constraints, non-default lam, known scale, generic GAM / ExpectileGAM)')
     ctx.assumptions.append('SciPy chi2.cdf, f.cdf, linalg.pinv (Moore-Penrose, validated as C P C = C each run), special.gammaln and the log-density normalisers are trusted library parameters')
+
+
+def run(ctx):
+    pygam = common.import_pygam()
+    _declare(ctx)
     ncase = 52 if ctx.tier == 'quick' else 520
     cases = fitgen.gen_cases(ctx.subrng('cases'), ncase, ctx.tier)
     with mp.get_context('fork').Pool(min(16, len(cases))) as pool:
         results = pool.map(_worker, cases, chunksize=1)
+    _process(ctx, results)
+    _accuracy_literals(ctx, pygam)
+    _notes(ctx)
 
+
+def _process(ctx, results):
+    """model (driver) vs implementation vs oracle for a list of worker results"""
     ops, meta = [], []
     for i, r in enumerate(results):
         c = r['case']
@@ -776,6 +788,9 @@ def run(ctx):
                 if not _close(wz['p_impl'], pM, tol) and not oracle_bad:
                     ctx.disagree(st_wd, wsig, wz['p_impl'], pM, 'p-value differs from the model Wald statistic through the reference cdf (score %r, rank %d)' % (score, wz['rank']))
 
+
+
+def _accuracy_literals(ctx, pygam):
     # ---- accuracy on literal-seeded vectors
     lits = _literals(pygam)
     ctx.extra['literals'] = lits
@@ -816,6 +831,9 @@ def run(ctx):
         elif abs(got - mod) > 1e-12:
             ctx.disagree(st_ac, asig, got, mod, 'accuracy differs from the model')
 
+
+
+def _notes(ctx):
     ctx.partial.append('edof / cov theorems are proved under the LAPACK / Cholesky contracts (validated numerically each run), not for LAPACK itself; '
                        'edof_le_k needs the extra row-orthonormality contract U1 U1\' + U1b U1b\' = 1 (explicit hypothesis, validated as U U\' = I)')
     ctx.partial.append('p-values: the Wald quadratic form, centring, rank division and choice of reference distribution are modelled; SciPy pinv / chi2.cdf / f.cdf are trusted parameters')
@@ -823,4 +841,11 @@ def run(ctx):
 
 
 def replay(ctx, rp):
-    run(ctx)
+    """re-execute the single failing fit of a replay file (or everything when the replay names no fit)"""
+    case = (rp.get('case') or {}).get('case') if isinstance(rp.get('case'), dict) else None
+    if not (isinstance(case, dict) and 'seed' in case and 'cls' in case):
+        return run(ctx)
+    common.import_pygam()
+    _declare(ctx)
+    _process(ctx, [_worker(case)])
+    _notes(ctx)
